@@ -26,7 +26,8 @@ from pbt.harness import Task, ok, violation, discard, xt_call
 PID = "C19"
 RULE = ("usage history of 1..3 calls drawn from {rootfinder, equilibrium, minimize, solve_ivp (euler, rk4, rk38, rk23, rk45; increasing and "
         "decreasing times), quad, mcquad (mh, _dummy1d), jac/hess products and dense form, solve(jac), solve (cg, bicgstab, gmres, broyden1, "
-        "custom_exactsolve, exactsolve; optional E, M), symeig (exacteig, custom_exacteig, davidson; optional M), Interp1D, SQuad} x function "
+        "custom_exactsolve, exactsolve; optional E, M; task 'fallback': shifts equal to an eigenvalue of a diagonal/triangular A and float32 "
+        "symeig/svd backward on diagonal matrices, which make the direct solve take its internally handled singular-matrix retry), symeig (exacteig, custom_exacteig, davidson; optional M), Interp1D, SQuad} x function "
         "kind (pure, nn.Module flat/nested/tied, EditableModule with attributes/containers/held nn.Module, one and two siblings) or operator kind "
         "(user LinearOperator over attributes/aliases/containers/held module with 4 method subsets, or a fresh LinearOperator.m per call) x "
         "{forward; +backward; +create_graph backward and second backward}; objects built once, history repeated 2 (warm-up) + 2 + 3 times, results "
@@ -94,7 +95,8 @@ def run_case(case):
     _collect_and_freeze()
     gc.disable()
     try:
-        pbs = [R.build_problem(it, gen.Counter()) for it in items]
+        pbs = [(build_fallback_problem(it) if it["functional"].startswith("fallback_") else R.build_problem(it, gen.Counter()))
+               for it in items]
         attached = [False]
 
         def repeat(k):
@@ -121,6 +123,77 @@ def run_case(case):
                          "of the history %s" % (n0, n2, n5, (n5 - n2) / 3.0,
                                                 [(it["functional"], it["method"], it["phase"]) for it in items]), labels)
     return ok(labels, nontrivial=attached[0])
+
+
+# ------------------------------------------------------------------------------------------ internally handled exceptions
+
+def build_fallback_problem(item):
+    """Calls that make xitorch take the one path on which it catches an exception internally: the direct shifted solve retries
+    with a slightly shifted diagonal after torch.linalg.solve reported an exactly singular matrix (a shift E equal to an eigenvalue
+    of a diagonal/triangular A; the implicit symeig/svd backward in float32 on a matrix whose eigenvalues are computed exactly).
+    A caught exception holds its traceback, the traceback holds the frame with all its tensors: nothing of that may survive the call."""
+    from xitorch import linalg, LinearOperator
+    g = gen.seeded(item["seed"])
+    n = item["n"]
+    dt = torch.float32 if item.get("f32") else torch.float64
+    d = torch.tensor([float(v) for v in item["diag"][:n]], dtype=dt)
+    upper = torch.triu(torch.randn((n, n), generator=g, dtype=torch.float64).to(dt), diagonal=1) * (0.3 if item.get("upper") else 0.0)
+    pb = R.Problem()
+    pb.counter = gen.Counter()
+    pb.retain = False
+    if item["functional"] == "fallback_solve":
+        A0 = (torch.diag(d) + upper).requires_grad_(bool(item["req"][0]))
+        ncols = item["ncols"]
+        B = torch.randn((n, ncols), generator=g, dtype=torch.float64).to(dt).requires_grad_(bool(item["req"][1]))
+        Ev = [float(d[(item["which"] + c) % n]) if c in item["singcols"] else 0.37 + 0.01 * c for c in range(ncols)]
+        E = torch.tensor(Ev, dtype=dt).requires_grad_(True)
+        pb.wrt = [t for t in (A0, B, E) if t.requires_grad]
+        pb.roots = [("tensors", [A0, B, E])]
+
+        def forward():
+            return (linalg.solve(LinearOperator.m(A0), B, E=E, method=item["method"]),)
+    else:
+        A0 = torch.diag(d).requires_grad_(True)
+        pb.wrt = [A0]
+        pb.roots = [("tensors", [A0])]
+
+        def forward():
+            if item["functional"] == "fallback_symeig":
+                return tuple(linalg.symeig(LinearOperator.m(A0, is_hermitian=True), neig=item["neig"], method=item["method"]))
+            return tuple(linalg.svd(LinearOperator.m(A0), k=item["neig"], method=item["method"]))
+    pb.forward = forward
+    pb.probe = lambda: []
+    return pb
+
+
+@st.composite
+def fallback_item_st(draw):
+    functional = draw(st.sampled_from(["fallback_solve", "fallback_solve", "fallback_symeig", "fallback_svd"]))
+    n = draw(st.integers(2, 4))
+    item = {"functional": functional, "n": n, "seed": draw(st.integers(0, 2 ** 31 - 1)),
+            "phase": draw(st.sampled_from([0, 1, 2, 3])),
+            "diag": draw(st.permutations([1, 2, 3, 5]))}
+    if functional == "fallback_solve":
+        item["method"] = draw(st.sampled_from(["exactsolve", "custom_exactsolve"]))
+        item["ncols"] = draw(st.integers(1, 3))
+        item["singcols"] = sorted(draw(st.sets(st.integers(0, item["ncols"] - 1), min_size=1)))
+        item["which"] = draw(st.integers(0, n - 1))
+        item["upper"] = draw(st.booleans())
+        item["f32"] = draw(st.booleans())
+        item["req"] = [draw(st.booleans()), draw(st.booleans())]
+    else:
+        item["method"] = draw(st.sampled_from(["custom_exacteig", "exacteig"]))
+        item["neig"] = draw(st.integers(1, n))
+        item["f32"] = True
+    return item
+
+
+@st.composite
+def fallback_history_st(draw, tier="quick"):
+    items = [draw(fallback_item_st())]
+    if draw(st.booleans()):
+        items.append(draw(st.one_of(fallback_item_st(), item_st(tier))))
+    return {"items": items}
 
 
 # ------------------------------------------------------------------------------------------ strategy
@@ -183,4 +256,6 @@ def tasks(tier):
         Task("history", strategy=history_st(tier), run=run_case, examples={"quick": 2400, "thorough": 40000}),
         # solve_ivp owns the two recorded leaks (D12, D13): a dedicated budget for every scheme x direction x phase
         Task("ivp", strategy=history_st(tier, ["solve_ivp"]), run=run_case, examples={"quick": 400, "thorough": 6000}),
+        # the path on which xitorch handles an exception internally (singular shifted matrix in the direct solve)
+        Task("fallback", strategy=fallback_history_st(tier), run=run_case, examples={"quick": 240, "thorough": 3000}),
     ]
